@@ -196,7 +196,8 @@ CHECKS["C16"] = ("exploration",
 
 CHECKS["C13"] = ("exploration",
     "TLC trace validation (FrameTrace.tla: ArgsUnchanged, ArgsUnchangedAfterResultMutation, Recomputable, RecomputedSame) of every public library call "
-    "on inputs of the C01-C03 spaces, with arguments re-encoded after the call and after scribbling on every container of the result",
+    "on inputs of the C01-C03 spaces and on the TLC-generated decision lists of DecisionModel.tla (apply_decisions), with arguments "
+    "re-encoded after the call and after scribbling on every container of the result",
     "The frame condition UNCHANGED args is a TLA+ clause evaluated by TLC on the encoded arguments before / after each call and after "
     "the returned result has been mutated everywhere; there is no state space to explore beyond the calls themselves, so the level is "
     "exploration (breadth over functions x inputs x strategies).",
